@@ -175,6 +175,13 @@ def run_schedule(case):
             log.append(('queue-enter', q[3], q[1], q[2], interp.time))
             log.append(('queue-exit', q[3], interp.time))
         runner = Runner(interp, interval=case['interval'], execute_all=case['execute_all'])
+        # the runner thread passing its pause gate (Event.wait on _unpaused) is logged: what
+        # follows a passed gate is "the cycle already under way"
+        def _gate():
+            me = sched.me()
+            if me is not None and me.name == 'runner':
+                log.append(('gate',))
+        runner._unpaused.on_pass = _gate
         box['runner'] = runner
 
         def client(cid, ops):
@@ -343,8 +350,14 @@ def oracle(case):
                 if log[j][0] == 'before_execute':
                     cycles += 1
                 j += 1
-            if cycles > 1:
-                viol.append(V('cycles-while-paused', cycles=cycles, granularity=gran))
+            # a cycle is under way when pause() returns iff the runner has passed its gate and
+            # has not started the cycle behind that gate yet; otherwise no cycle may start
+            gates = [q for q in range(i) if log[q][0] == 'gate']
+            allowed = 1 if gates and not any(log[q][0] == 'before_execute'
+                                             for q in range(gates[-1], i)) else 0
+            if cycles > allowed:
+                viol.append(V('cycles-while-paused', cycles=cycles, allowed=allowed,
+                              granularity=gran))
                 break
             labels['pause observed'] = labels.get('pause observed', 0) + 1
         i += 1
